@@ -19,6 +19,7 @@ REPO_GROUPS = {
     # in-crate harnesses (private items): cargo kani runs on /repo itself, build output under /verif/.build
     "repo_zonetree": ["unstable-zonetree"],
     "repo_client": ["unstable-client-transport"],
+    "repo_zonefile": ["bytes", "zonefile"],
 }
 
 
